@@ -326,10 +326,11 @@ func c10LoadFaults(chk *fw.Check) (evals int) {
 	c := newC10Cast()
 	loc := &core.CRLLocations{CRLDistributionPoints: c10CDPSets[0]}
 	url := c10CDPSets[0][0]
-	for _, disk := range []bool{false, true} {
+	for _, mode := range []struct{ disk, bg bool }{{false, false}, {true, false}, {false, true}, {true, true}} {
+		disk, bg := mode.disk, mode.bg
 		count := func(dieAt int) (n int, v1, v2 Verdict, fired string) {
 			res := seqWorld(func() {
-				w := NewCW(CWOpt{Disk: disk, SigMode: config.SignatureValidationModeVerify})
+				w := NewCW(CWOpt{Disk: disk, SigMode: config.SignatureValidationModeVerify, Background: bg})
 				defer os.RemoveAll(w.Dir)
 				if err := w.Provision(); err != nil {
 					panic(err)
@@ -348,6 +349,9 @@ func c10LoadFaults(chk *fw.Check) (evals int) {
 				func() {
 					defer func() { recover() }()
 					w.Repo().AddCRL(loc, chains)
+					if bg {
+						w.Chk.VerifUpdateCRLs(true) // what the handshake starts in the background for a new location
+					}
 				}()
 				vsched.EffectHook = nil
 				v1 = w.Lookup(c.clean[0], world.Chain(c.clean[0], c.p.CA, c.p.Root))
@@ -367,9 +371,9 @@ func c10LoadFaults(chk *fw.Check) (evals int) {
 			for i, v := range []Verdict{v1, v2} {
 				switch {
 				case v.Panic != "":
-					chk.Violation("C10|panic-after-load-fault|"+kind+"|"+be(disk), fmt.Sprintf("first load with an injected %s error (effect point %d of %d, %s backend): %s", kind, k, total, be(disk), v.Panic), nil)
+					chk.Violation("C10|panic-after-load-fault|"+kind+"|"+be(disk)+fmt.Sprintf(" background=%v", bg), fmt.Sprintf("first load with an injected %s error (effect point %d of %d, %s backend): %s", kind, k, total, be(disk), v.Panic), nil)
 				case v.Err != "":
-					chk.Violation("C10|lenient-denied-after-load-fault|"+kind+"|"+be(disk),
+					chk.Violation("C10|lenient-denied-after-load-fault|"+kind+"|"+be(disk)+fmt.Sprintf(" background=%v", bg),
 						fmt.Sprintf("crl_cdp_strict off, %s backend: the first load of the distribution-point CRL hit an injected %s error (effect point %d of %d); handshake %d afterwards (fault gone, certificate not listed anywhere) is denied: %s", be(disk), kind, k, total, i+1, v.Err), nil)
 				}
 			}
